@@ -507,7 +507,7 @@ class NpCalls:
         out = AV(ty='ndarray' if (new_axes is None or len(new_axes) > 0) else 'float', geo=ng, axes=new_axes, deps=d,
                  store='fresh', mono=nm, red=(name, x, axis, tuple(sorted(removed))), idx=x.idx if name in ORDER_REDUCERS else None)
         if name in ('any', 'all'):
-            out = out.w(dtype='bool', ty='bool' if axis == 'none' else 'ndarray')
+            out = out.w(dtype='bool', ty='bool' if axis == 'none' else 'ndarray', idx=None, mono=None, geo=None)
         if name in ('argmin', 'argmax'):
             out = out.w(dtype='int')
         w = kwargs.get('weights')
